@@ -175,7 +175,8 @@ type Sim struct {
 	arrival   map[string]int
 
 	// seams
-	Exec func(cmd *exec.Cmd, op string) ([]byte, error)
+	Exec     func(cmd *exec.Cmd, op string) ([]byte, error)
+	Observer func(name string, args ...any) // receives the Observe(...) calls placed by directives
 
 	// coverage
 	Pairs    map[string]int
@@ -200,6 +201,7 @@ func New(t *Tape) *Sim {
 	s.rd = t.St("rand")
 	s.it = t.St("iter")
 	s.gap = -1
+	s.schedG = goid() // the creating goroutine is the bubble's root: it may call instrumented code unhooked
 	s.digest = 1469598103934665603
 	s.schedHash = 1469598103934665603
 	return s
@@ -451,6 +453,7 @@ func Yield(site string) {
 		// unknown goroutine entering instrumented code without a directive
 		s.arrival[site]++
 		s.Unknown++
+		s.Counters["infra:unregistered-goroutine@"+site]++
 		t = &task{key: "ext?:" + site + "#" + strconv.Itoa(s.arrival[site]), wake: make(chan struct{}), foreign: true, depth: 1 << 30}
 		s.tasks[g] = t
 	}
@@ -1014,6 +1017,16 @@ func CmdCombinedOutput(cmd *exec.Cmd) ([]byte, error) {
 }
 func CmdStart(cmd *exec.Cmd) error { return cmd.Start() }
 func CmdWait(cmd *exec.Cmd) error  { return cmd.Wait() }
+
+// Observe hands values of the code under test to the harness (pure observation: no
+// scheduling decision, no draw).
+func Observe(name string, args ...any) {
+	s := S
+	if s == nil || !s.on || s.Observer == nil {
+		return
+	}
+	s.Observer(name, args...)
+}
 
 // ZeroRecv returns the zero value of the channel's element type (R9 helper).
 func ZeroRecv[T any](c <-chan T) (z T) { return z }
